@@ -47,6 +47,10 @@ const classStaleEntry = "C08-lib-from-stale-entry-of-abandoned-branch"
 // reorganisation that failed in this session.
 const classFailedRF = "C08-lib-kept-from-failed-rollforward"
 
+// receivers never validate Confirms: a block claiming more than `no - (its producer's previous block among the ancestors)` confirms
+// blocks its producer has confirmed before. Tagged only when such a block is among the blocks at or above the LIB.
+const classLyingConfirms = "C08-quorum-by-lying-confirms"
+
 // ---------------------------------------------------------------- producers, blocks
 
 type producer struct {
@@ -709,7 +713,14 @@ func (n *node) check(arrived *sblk) {
 		}
 		q := len(w.prods)*2/3 + 1
 		if len(seen) < q {
-			w.run.Fail(fmt.Sprintf("LIB advanced to %s with blocks of only %d distinct producers at or above it; %d needed", w.showBI(lib), len(seen), q), n.replay())
+			class := ""
+			for x := range n.updated {
+				if x.bp >= 0 && lb.isAncestorOf(x) && x.confirms > w.honest(x.prev, x.bp) {
+					class = classLyingConfirms
+				}
+			}
+			w.run.Count("quorum-fail class=" + class)
+			w.run.FailKnown(fmt.Sprintf("LIB advanced to %s with blocks of only %d distinct producers at or above it; %d needed", w.showBI(lib), len(seen), q), class, n.replay())
 		}
 		if len(onMain) < q {
 			// counted: the confirmations came (partly) from a branch this node rolled forward and did NOT adopt
